@@ -30,6 +30,9 @@ REPLAYS = os.path.join(ROOT, "replays")
 # The crate under verification. VERIF_REPO points the whole pipeline (translator + harness build) at another
 # checkout (e.g. a scratch `git worktree` used to try the checks against deliberately broken code).
 REPO = os.environ.get("VERIF_REPO", "/repo")
+if REPO != "/repo":
+    # a trial against another checkout never touches the evidence of the real tree
+    EVID = os.path.join(WORK, "evidence_alt")
 DRIVER = os.path.join(LEAN, ".lake", "build", "bin", "driver")
 
 ALLOWED_AXIOMS = {"propext", "Classical.choice", "Quot.sound"}
